@@ -18,6 +18,7 @@ package fieldmask
 
 import (
 	"encoding/json"
+	"errors"
 	"fmt"
 	"io"
 	"math"
@@ -116,6 +117,8 @@ func (p pathToken) Err() error {
 	switch p.typ {
 	case pathTypeEOF:
 		return io.EOF
+	case pathTypeERR:
+		return errors.New(p.val.Str())
 	default:
 		return nil
 	}
@@ -165,7 +168,7 @@ func newPathToken(typ pathType, val string, s, e int) pathToken {
 	case pathTypeLitInt:
 		i, err := strconv.Atoi(val)
 		if err != nil {
-			panic(err)
+			return pathToken{typ: pathTypeERR, val: newPathValueStr(err.Error()), loc: [2]int{s, e}}
 		}
 		return pathToken{typ: typ, val: newPathValueInt(i), loc: [2]int{s, e}}
 	default:
